@@ -199,6 +199,7 @@ pub fn run(ctx: &Ctx) -> Report {
      upper case and dotted tails (incl. IPv4-mapped), ports {0,1,80,6881,65535} with leading zeros, and malformed strings (missing/oversized port, empty host, unbracketed IPv6, forbidden characters, malformed IPv6); \
      CLI: create --node, show --json dht_nodes, link --peer; non-trivial = not a plain lower-case domain; distinct by input text",
   );
+  report.rule.push_str("; a fixed corpus (trailing-dot names, 64-character labels, zero-padded ports, port 0, comma hosts, zone ids, brackets around non-IPv6, white space, signs and 0x in the port); CLI: two nodes (also after one flag) crossed with other options of create, the stored pair read with an independent reader");
   report.correspondences.push("C17.hostport: FromStr/Display/Serialize/Deserialize for HostPort = Imdlv.HostPort.{parse,display,toPair,ofPair} with the model's host parser".into());
   let mut model = Model::spawn(&ctx.vmodel);
   let mut inputs: Vec<(String, Kind, &'static str)> = Vec::new();
